@@ -631,3 +631,150 @@ var rR16m = RuleRef{Name: "R16m", Doc: "what a leader knows about a follower's l
 	c.Count("R16m_match_stores", n)
 	c.Min("R16m_match_stores", 1)
 }}
+
+// ---------- specialisation of helpers by constant arguments ----------
+
+// constArgs: the arguments of a call that are boolean or integer constants -- or a choice between constants (a phi, a
+// variable set to one literal or another before the call) -- by parameter index.
+func constArgs(ci ssa.CallInstruction) map[int][]*ssa.Const {
+	out := map[int][]*ssa.Const{}
+	for i, a := range ci.Common().Args {
+		var ks []*ssa.Const
+		okAll := true
+		seen := map[ssa.Value]bool{}
+		var walk func(v ssa.Value, d int)
+		walk = func(v ssa.Value, d int) {
+			if seen[v] || d > 3 {
+				return
+			}
+			seen[v] = true
+			switch y := v.(type) {
+			case *ssa.Const:
+				if y.Value != nil && (isBoolType(y.Type()) || isIntType(y.Type())) {
+					ks = append(ks, y)
+				} else {
+					okAll = false
+				}
+			case *ssa.Phi:
+				for _, e := range y.Edges {
+					walk(e, d+1)
+				}
+			case *ssa.ChangeType:
+				walk(y.X, d+1)
+			default:
+				okAll = false
+			}
+		}
+		walk(a, 0)
+		if okAll && len(ks) > 0 && len(ks) <= 4 {
+			out[i] = ks
+		}
+	}
+	return out
+}
+
+// prunedReach: the blocks of fn that can be reached from its entry when the parameters listed in consts have those
+// constant values: a branch on such a parameter, on its negation, or on a comparison of it with another constant is
+// followed on the side the value selects (a helper steered by a flag or a small enum, called with a literal).
+func prunedReach(fn *ssa.Function, consts map[int][]*ssa.Const) map[*ssa.BasicBlock]bool {
+	reach := map[*ssa.BasicBlock]bool{}
+	if fn == nil || len(fn.Blocks) == 0 {
+		return reach
+	}
+	// the candidate constants a value can stand for: itself, or those of the parameter it is
+	candidates := func(v ssa.Value) ([]*ssa.Const, bool) {
+		for d := 0; d < 3; d++ {
+			switch y := v.(type) {
+			case *ssa.ChangeType:
+				v = y.X
+				continue
+			case *ssa.Convert:
+				v = y.X
+				continue
+			}
+			break
+		}
+		if k, ok := v.(*ssa.Const); ok && k.Value != nil {
+			return []*ssa.Const{k}, false
+		}
+		if p, ok := v.(*ssa.Parameter); ok {
+			for i, q := range fn.Params {
+				if q == p && len(consts[i]) > 0 {
+					return consts[i], true
+				}
+			}
+		}
+		return nil, false
+	}
+	var known func(v ssa.Value, d int) (bool, bool)
+	known = func(v ssa.Value, d int) (bool, bool) {
+		if d > 4 {
+			return false, false
+		}
+		switch y := v.(type) {
+		case *ssa.UnOp:
+			if y.Op == token.NOT {
+				val, ok := known(y.X, d+1)
+				return !val, ok
+			}
+		case *ssa.Parameter:
+			ks, _ := candidates(y)
+			if len(ks) == 0 || !isBoolType(y.Type()) {
+				return false, false
+			}
+			first := ks[0].Value.ExactString() == "true"
+			for _, k := range ks[1:] {
+				if (k.Value.ExactString() == "true") != first {
+					return false, false
+				}
+			}
+			return first, true
+		case *ssa.BinOp:
+			if y.Op != token.EQL && y.Op != token.NEQ {
+				return false, false
+			}
+			as, aP := candidates(y.X)
+			bs, bP := candidates(y.Y)
+			if len(as) == 0 || len(bs) == 0 || (!aP && !bP) {
+				return false, false
+			}
+			// the comparison has the same outcome for every combination of candidates
+			var res *bool
+			for _, a := range as {
+				for _, b := range bs {
+					eq := a.Value.ExactString() == b.Value.ExactString()
+					r := eq == (y.Op == token.EQL)
+					if res == nil {
+						res = &r
+					} else if *res != r {
+						return false, false
+					}
+				}
+			}
+			return *res, true
+		}
+		return false, false
+	}
+	var walk func(b *ssa.BasicBlock)
+	walk = func(b *ssa.BasicBlock) {
+		if reach[b] {
+			return
+		}
+		reach[b] = true
+		if iff, ok := b.Instrs[len(b.Instrs)-1].(*ssa.If); ok {
+			if val, have := known(iff.Cond, 0); have {
+				if val {
+					walk(b.Succs[0])
+				} else {
+					walk(b.Succs[1])
+				}
+				return
+			}
+		}
+		for _, sc := range b.Succs {
+			walk(sc)
+		}
+	}
+	walk(fn.Blocks[0])
+	return reach
+}
